@@ -114,13 +114,13 @@ func main() {
 	opt := &option.DatabaseOption{Intervals: option.Intervals{{Interval: timeutil.Interval(10_000), Retention: timeutil.Interval(3000 * 24 * 3600 * 1000)}}, AutoCreateNS: true}
 	box, err := vbox.Open(filepath.Join(f.Scratch, "eng"), dbName, opt, []models.ShardID{shardID})
 	if err != nil {
-		vevid.Fatal("open engine: %v", err)
+		vevid.OpFailed("open engine: %v", err)
 	}
 	defer box.Close()
 	eng = box.Engine
 	shard, ok := eng.GetShard(dbName, shardID)
 	if !ok {
-		vevid.Fatal("shard not found")
+		vevid.OpFailed("shard not found")
 	}
 	familyTime = shard.CurrentInterval().Calculator().CalcFamilyTime(time.Now().UnixMilli())
 	installPartitionWrapper()
@@ -146,7 +146,7 @@ func main() {
 			before := rep.ViolationCount
 			w, err := newWorld(cfg)
 			if err != nil {
-				vevid.Fatal("new world: %v", err)
+				vevid.OpFailed("new world: %v", err)
 			}
 			gNoRecov = true
 			prev := w.Canon()
